@@ -535,6 +535,43 @@ def c08_fresh(n, every=1):
 _B64U = b"ABCDEFGHIJKLMNOPQRSTUVWXYZabcdefghijklmnopqrstuvwxyz0123456789-_"
 
 
+def c12_rotation(reps):
+    """Key rotation: sign with key A, free its keyring, load key B (same type, or another), sign again - the
+    second token must carry B's signature under either provider, and each provider must accept it.  Run with
+    a zero ASan quarantine so that the freed key's address is reused at once (what an ordinary allocator does)."""
+    PAIRS = [("ed25519a", "ed25519b", "EdDSA"), ("rsa2048a", "rsa2048b", "RS256"), ("rsa2048a", "rsa2048b", "PS256"),
+             ("p256a", "p256b", "ES256"), ("ed448a", "ed448b", "EdDSA"), ("p384a", "p384b", "ES384"),
+             ("rsa2048a", "p256a", None), ("ed25519a", "rsa2048b", None), ("p521a", "ed448a", None)]
+    NATIVE = {"RSA": "RS256", "OKP": "EdDSA"}
+
+    def nat(base):
+        kty, bits, crv = ASYM[base]
+        return NATIVE.get(kty) or {256: "ES256", 384: "ES384", 521: "ES512"}[bits]
+
+    def gen(seed):
+        for prov in ("openssl", "gnutls"):
+            for a, b, alg in PAIRS:
+                for r in range(reps):
+                    a1, a2 = alg or nat(a), alg or nat(b)
+                    ops = [dict(op="Ops", name=prov),
+                           dict(op="Load", ring=1, via="create", doc="keys", keys=[asym(a, 0), asym(b, 0)]),
+                           dict(op="BNew", b=0), dict(op="CNew", c=0)]
+                    cur = [(a, a1, 0), (b, a2, 1)] * (1 + r)
+                    for i, (base, al, pubidx) in enumerate(cur):
+                        ops += [dict(op="Load", ring=0, via="create", doc="keys", keys=[asym(base, 1)]),
+                                dict(op="BSetKey", b=0, alg=al, ring=0, key=0),
+                                dict(op="Generate", b=0, slot=i % 4),
+                                dict(op="CSetKey", c=0, alg=al, ring=1, key=pubidx),
+                                dict(op="Verify", c=0, tok=dict(src="slot", slot=i % 4)),
+                                dict(op="Ops", name="openssl" if prov == "gnutls" else "gnutls"),
+                                dict(op="Verify", c=0, tok=dict(src="slot", slot=i % 4)),
+                                dict(op="Ops", name=prov),
+                                dict(op="BSetKey", b=0, alg="none", ring=0, key=-1),
+                                dict(op="RingFree", ring=0)]
+                    yield ops
+    return gen
+
+
 def c11_users(maxlen):
     """The codec as its callers use it: token segments whose JSON text has every length up to maxlen
     (all residues mod 3 and mod 4: the callers terminate / measure what the decoder returned), unsigned
